@@ -1,1 +1,8 @@
 import UwgVerif.Model.Tridiag
+import UwgVerif.Model.Conduction
+import UwgVerif.Model.Symbols
+import UwgVerif.Model.SymbolsReal
+import UwgVerif.Lemmas.Tridiag
+import UwgVerif.Lemmas.Conduction
+import UwgVerif.Props.C11
+import UwgVerif.Drv.Proto
